@@ -1674,3 +1674,7 @@ M("c03-strategy-called-unprotected", "C03", "R1.record-before-outcome", "operati
 """, "        retry_decision: RetryDecision = retry_strategy(error, retry_attempt + 1)\n", desc="fix 089b20e reverted")
 M("c15-bytes-decoded-through-b64decode", "C15", "R12.leaf-decoder-no-deeper-than-leaf-encoder", "serdes.py",
   "        return binascii.a2b_base64(value.encode(\"utf-8\"))", "        return base64.b64decode(value.encode(\"utf-8\"))", desc="fix 2d5fcf1 reverted")
+M("c09-suspension-raised-without-second-look", "C09", "R5.decided-policy-overrules-a-recorded-suspension", "concurrency/executor.py",
+  "                if self._suspend_exception and not self.counters.should_complete():", "                if self._suspend_exception:")
+M("c19-error-built-under-the-mutex", "C19", "R1.no-user-code-under-the-mutex", "threading.py",
+  "            broken_by = self._exception if self._is_broken else None\n", "            broken_by = self._exception if self._is_broken else None\n            if self._is_broken:\n                raise OrderedLockError(\"broken\", self._exception)\n")
